@@ -389,3 +389,11 @@ func (c *Ctx) AmendLastViolation(input string) {
 		c.viols[n-1].Input = input
 	}
 }
+
+// Count2 increments a counter and returns its new value.
+func (c *Ctx) Count2(key string) int64 {
+	c.mu.Lock()
+	defer c.mu.Unlock()
+	c.counts[key]++
+	return c.counts[key]
+}
